@@ -191,3 +191,41 @@ func VxH_C04_relative_on_root() {
 		vx.Assert("font-size-finite", fs.Value > 0)
 	}
 }
+
+// properties whose initial value is not a computed value (a keyword or a width that depends on
+// another property: CSS Backgrounds 3, Multi-column 1, Paged Media 3, UI 3, Display 3)
+var vxInitialNeedsComputing = []pr.KnownProp{
+	pr.PDisplay, pr.PColumnGap, pr.PBleedTop, pr.PBleedLeft, pr.PBleedBottom, pr.PBleedRight,
+	pr.POutlineWidth, pr.POutlineColor, pr.PColumnRuleWidth, pr.PColumnRuleColor,
+	pr.PBorderTopWidth, pr.PBorderLeftWidth, pr.PBorderBottomWidth, pr.PBorderRightWidth,
+	pr.PBorderTopColor, pr.PBorderLeftColor, pr.PBorderBottomColor, pr.PBorderRightColor,
+}
+
+// "with no winning declaration a property takes its initial value": for the properties whose
+// initial value still needs computing, leaving the property undeclared and declaring its
+// initial value explicitly give the same computed value, on the root and on a child.
+func VxH_C04_initial_computed() {
+	root, body := vxDoc()
+	p := vxInitialNeedsComputing[vx.Choose("property", len(vxInitialNeedsComputing))]
+	onRoot := vx.Choose("on-root", 2) == 1
+	// a non-default context, so that "depends on another property" matters
+	ctx := []validation.Declaration{vxDecl(pr.PBorderTopStyle, pr.String("solid")), vxDecl(pr.PBorderLeftStyle, pr.String("solid")),
+		vxDecl(pr.POutlineStyle, pr.String("solid")), vxDecl(pr.PColumnRuleStyle, pr.String("solid")), vxDecl(pr.PFloat, pr.String("left"))}
+	el, tag := body, "body"
+	if onRoot {
+		el, tag = root, "html"
+	}
+	sf := newStyleFor(&HTML{Root: root}, []sheet{{origin: "author", sheet: CSS{matcher: matcher{vxRule(tag, ctx...)}}}}, false, nil, nil)
+	v1 := sf.Get(el, "").Get(p.Key())
+	vx.Reach("computed")
+	root2, body2 := vxDoc()
+	decls := append(append([]validation.Declaration{}, ctx...), vxDecl(p, pr.InitialValues[p].(pr.DeclaredValue)))
+	sf2 := newStyleFor(&HTML{Root: root2}, []sheet{{origin: "author", sheet: CSS{matcher: matcher{vxRule(tag, decls...)}}}}, false, nil, nil)
+	el2 := body2
+	if onRoot {
+		el2 = root2
+	}
+	v2 := sf2.Get(el2, "").Get(p.Key())
+	vx.Reach("recomputed")
+	vx.Assert("undeclared-equals-declared-initial-value", vx.DeepEqual(v1, v2))
+}
